@@ -37,3 +37,38 @@ def main(only=None):
         print(*r)
     print("selftest", "PASSED" if ok else "FAILED")
     return 0 if ok else 1
+
+
+def benign(only=None):
+    """./check benign : behaviour-preserving refactorings (selftest/benign/) must leave every
+    listed check at exit 0."""
+    import json
+    here = os.path.dirname(os.path.dirname(os.path.abspath(__file__)))
+    man = json.load(open(os.path.join(here, "selftest", "benign", "manifest.json")))
+    ok = True
+    for m in man:
+        if only and only not in m["id"]:
+            continue
+        tmp = tempfile.mkdtemp(prefix="pyvc-benign-")
+        try:
+            shutil.copytree("/repo/src", os.path.join(tmp, "src"))
+            p = subprocess.run(["git", "apply", "--directory", tmp, os.path.join(here, "selftest", "benign", m["patch"])],
+                               capture_output=True, text=True, cwd=tmp)
+            if p.returncode != 0:
+                p = subprocess.run(["patch", "-p1", "-d", tmp, "-i", os.path.join(here, "selftest", "benign", m["patch"])],
+                                   capture_output=True, text=True)
+            if p.returncode != 0:
+                print(m["id"], "PATCH-DOES-NOT-APPLY", p.stderr[:200])
+                ok = False
+                continue
+            env = dict(os.environ, PYVC_REPO_SRC=os.path.join(tmp, "src"), PYVC_NO_EVIDENCE="1")
+            res = []
+            for q in m["checks_that_must_stay_green"]:
+                r = subprocess.run([os.path.join(here, "check"), q], capture_output=True, text=True, env=env)
+                res.append(f"{q}={r.returncode}")
+                ok = ok and r.returncode == 0
+            print(m["id"], " ".join(res))
+        finally:
+            shutil.rmtree(tmp, ignore_errors=True)
+    print("benign", "PASSED" if ok else "FAILED")
+    return 0 if ok else 1
